@@ -155,7 +155,7 @@ func C19(r *drv.Run) {
 	if !quick(r) {
 		rounds = 3000
 	}
-	r.Rule = "rounds of 8..32 goroutines issuing Compile (sources with and without regex groups, with loops, with relocated global patterns, sources that fail in the lexer / parser / regex sub-parser / generator / type checker, sources of about a kilobyte), Compile+Run, Run on shared pre-compiled programs and Run followed by Json()/FormattedJson() of the result list, on short texts and on texts long enough for loops to pass 64, 128 and 256 iterations in one attempt, all released from one barrier, in a -race build of the worker; yield hooks (H2 every lexer read, H3 parser/generator sites, H1 every VM step) armed in half of the rounds. Plus compile storms: 16 goroutines each compiling a few tiny sources two hundred times over without yields (9 600 compilations per storm), every repetition compared. In every third round a third of the calls are RunFiles calls of two linear programs over ONE file of 13 KB (three reader windows) and one small file, so that several goroutines search the same file at the same time. Every thirtieth round adds four goroutines that run a linear replace command (three of them compiling it themselves) on two different texts of more than a mebibyte with thousands of matches. Every thirtieth round has sixteen goroutines rewriting their own files (mode NEW, six calls each) while eight others search file NAMES (RunFiles with its third argument set) 120 times each: every output file equals the one the call writes alone. Every thirtieth round is a crowd of 96 goroutines, each rewriting its own copy of a 13 KB file in replace mode NEW (reader and writer open at the same time): all of them return. One round in ten runs next to one more compilation that waits for its source on a named pipe; the source is delivered when every other call has returned - a call that alone returns at once must not wait for it (the writer gives up after 20 s, which is the violation). Oracle 1: the Go race detector (GORACE halt_on_error=0, log files parsed, reports de-duplicated by the pair of outermost repository frames): any report is a violation. Oracle 2: every concurrent call's result digest (canonical bytecode with loop ids normalised; all match fields; the rendered JSON texts) equals the digest of the same call executed alone in a fresh sequential worker. Oracle 3: canonical bytecode of the shared programs unchanged by the round. Non-trivial = a call whose [call,return] interval overlapped another call's on the shared monotonic clock; distinct by (round, call index)."
+	r.Rule = "rounds of 8..32 goroutines issuing Compile (sources with and without regex groups, with loops, with relocated global patterns, sources that fail in the lexer / parser / regex sub-parser / generator / type checker, sources of about a kilobyte), Compile+Run, Run on shared pre-compiled programs and Run followed by Json()/FormattedJson() of the result list, on short texts and on texts long enough for loops to pass 64, 128 and 256 iterations in one attempt, all released from one barrier, in a -race build of the worker; yield hooks (H2 every lexer read, H3 parser/generator sites, H1 every VM step) armed in half of the rounds. Plus compile storms: 16 goroutines each compiling a few tiny sources two hundred times over without yields (9 600 compilations per storm), every repetition compared. In every third round a third of the calls are RunFiles calls of two linear programs over ONE file of 13 KB (three reader windows) and one small file, so that several goroutines search the same file at the same time. Every thirtieth round adds four goroutines that run a linear replace command (three of them compiling it themselves) on two different texts of more than a mebibyte with thousands of matches. Every Run call files a label of its own under each match it got back (the exported variable map of a match belongs to the caller): afterwards its matches carry that label and no other, and no later call sees it. Every thirtieth round has sixteen goroutines rewriting their own files (mode NEW, six calls each) while eight others search file NAMES (RunFiles with its third argument set) 120 times each: every output file equals the one the call writes alone. Every thirtieth round is a crowd of 96 goroutines, each rewriting its own copy of a 13 KB file in replace mode NEW (reader and writer open at the same time): all of them return. One round in ten runs next to one more compilation that waits for its source on a named pipe; the source is delivered when every other call has returned - a call that alone returns at once must not wait for it (the writer gives up after 20 s, which is the violation). Oracle 1: the Go race detector (GORACE halt_on_error=0, log files parsed, reports de-duplicated by the pair of outermost repository frames): any report is a violation. Oracle 2: every concurrent call's result digest (canonical bytecode with loop ids normalised; all match fields; the rendered JSON texts) equals the digest of the same call executed alone in a fresh sequential worker. Oracle 3: canonical bytecode of the shared programs unchanged by the round. Non-trivial = a call whose [call,return] interval overlapped another call's on the shared monotonic clock; distinct by (round, call index)."
 	r.Assumptions = []string{
 		"the race detector only sees races on schedules that occur; yields and repetition raise the odds, not to certainty",
 		"the harness's own monitor state is atomic in concurrent mode; the step and lexer counters are switched off there",
